@@ -25,6 +25,11 @@ itself; `SyncInv` is only used for `release` of a CONNECT parked in the authenti
 `C09_record_survives_run` / `C09_record_survives_history` (op lists), `C09_resume_resends` (what a resumption
 resends: PUBLISH with DUP for a PUBLISH record; PUBREL — and, in the resend loop, no PUBLISH with that identifier — for a
 PUBREL record).  Non-vacuity and the F09 counterexample by `decide`: `Mochi/Props/C09Demo.lean`.
+Go behaviour behind the two clauses of the definitions that are not in the property text: F09 — `processPacket`
+(server.go:732-741) writes the next deferred message (`NextImmediate`, inflight.go:85/100: `Expiry < 0`) and then
+`Inflight.Delete`s it; F10 — `processPublish` (server.go:920-929) looks the CLIENT's packet identifier up in the same
+`cl.State.Inflight` map that holds the server's outbound records and deletes whatever is there (unless it is a PUBREC);
+`processPubrel` (server.go:1235-1257) likewise.  Both are faithful to the Go code, not model artefacts.
 -/
 namespace Mochi.Broker
 open Mochi.Topics
@@ -160,6 +165,30 @@ theorem C09_record_survives_history (caps : Caps) (pre ops : List Op) (cid : Str
   obtain ⟨f1, f2⟩ := OpsFresh_app hf
   obtain ⟨o1, o2⟩ := OpsSchedOK_app hok
   exact C09_record_survives_run _ ops cid k p (WF_run caps pre f1) (SyncInv_run caps pre f1 o1) f2 o2 h hne
+
+/-- `Ends` identifies "a connection of `cid`" by the client id of the connection's object.  In every state of a
+    history (`SyncInv`) and for a connection whose handler is not parked (`FreeConn`, what `SchedOK` asks of `recv`),
+    such a connection that is still open IS the registered session's: an inbound packet `Ends` counts acts on the
+    object that holds the record. -/
+theorem C09_ends_recv_is_registered (s : Server) (cid : Str) (k conn : Nat) (pk : InPk) (b : Bool) (hw : WF s)
+    (hsync : SyncInv s) (hfree : FreeConn s conn) (h : EndsRecv s cid k conn pk b) :
+    ∃ j, assocGet s.connOf conn = some j ∧ assocGet s.clients cid = some j := by
+  unfold EndsRecv at h
+  cases hc : assocGet s.connOf conn with
+  | none => rw [hc] at h; exact h.elim
+  | some j =>
+    rw [hc] at h
+    obtain ⟨hid, hopen, _⟩ := h
+    have hj : j < s.objs.length := hw.conn_valid conn j (assocGet_mem _ _ _ hc)
+    have hst : (getObj s j).stopped = false := by
+      have := hsync.os j
+      rw [hopen] at this
+      cases hs : (getObj s j).stopped with
+      | false => rfl
+      | true => rw [hs] at this; cases this
+    have := hsync.registered_of_live hj (hfree.free hc) (fun x => x) hst
+    rw [hid] at this
+    exact ⟨j, rfl, this⟩
 
 /-! ### what a resumption resends -/
 
